@@ -15,7 +15,9 @@ Definition obs_of (p : pkt) : wobs :=
   | KPubrel => (0, pid p, 0, false)
   end.
 
-Record stepobs := mkStep { sev : ev; swire : list wobs }.
+(* [sblind]: the client did not read during this step (it reconnected and dropped while the broker's writer
+   was blocked): what the broker wrote is unknown and is not compared *)
+Record stepobs := mkStep { sev : ev; swire : list wobs; sblind : bool }.
 Record case := mkCase { rm0 : Z; offline_q0 : bool; steps : list stepobs; ran : bool }.
 
 Definition wobs_eqb (a b : wobs) : bool :=
@@ -64,7 +66,8 @@ Fixpoint check (w : writer) (ss : list stepobs) : bool :=
           | Fine =>
               (* on reconnect the unacknowledged packets come back in the iteration order of a Go
                  sync.Map: compare that step as a multiset, every other step as a sequence *)
-              (match sev s with
+              (sblind s ||
+               match sev s with
                | EOpen _ => list_eqb wobs_eqb (wsort (map obs_of (o ++ o2))) (wsort (swire s))
                | _ => list_eqb wobs_eqb (map obs_of (o ++ o2)) (swire s)
                end) && check w2 r
